@@ -6,7 +6,7 @@ from scoda.misc.util import get_default_note_values
 META = {
     "bounds": {
         "quick": "1-2 tracks (second track: one note, empty, or longer than the first), meta track with <=2 notes; signature plans "
-                 "{none, 3/4, 6/8->2/4, 3/4->5/8, 4/4->3/4 with key changes} on bar boundaries (concrete case split); note onsets "
+                 "{none, 3/4, 6/8->2/4, 3/4->5/8, 4/4->3/4 with key changes, 3/16->7/8} on bar boundaries (concrete case split); note onsets "
                  "symbolic 0..160, durations symbolic 1..120 (re-quantisation off) so crossing 0, 1 or 2 bar lines is the solver's "
                  "choice; re-quantisation on: one note with duration a symbolic member of the default note values, onset symbolic",
         "thorough": "as quick with 2 symbolic notes under re-quantisation and onsets up to 250",
@@ -23,6 +23,7 @@ PLANS = {
     "68-24": ([(0, 6, 8), (144, 2, 4)], []),
     "34-58": ([(0, 3, 4), (72, 5, 8)], [(72, KEYS[9])]),
     "44-34k": ([(0, 4, 4), (96, 3, 4)], [(0, KEYS[2]), (96, KEYS[12])]),
+    "316-78": ([(0, 3, 16), (36, 7, 8)], [(36, KEYS[6])]),
 }
 
 
@@ -45,7 +46,7 @@ def grid(plan, nbars):
     return out
 
 
-def build_track(ctx, prefix, nnotes, ch, plan=None, smax=160, dmax=120, allowed=False, tail=True):
+def build_track(ctx, prefix, nnotes, ch, plan=None, smax=160, dmax=120, allowed=False, tail=True, multich=False):
     """absolute messages of one track: symbolic notes (+ the plan's signature / key events for the meta track)"""
     msgs, notes = [], []
     if plan is not None:
@@ -64,15 +65,16 @@ def build_track(ctx, prefix, nnotes, ch, plan=None, smax=160, dmax=120, allowed=
             du = ctx.int(f"{prefix}d{i}", 1, dmax)
         p = 60 + i
         v = ctx.int(f"{prefix}v{i}", 1, 127)
-        notes.append(NoteV(ch, p, st, st + du, v))
-        msgs.append(on(ch, p, v, time=st))
-        msgs.append(off(ch, p, time=st + du))
+        c = ctx.int(f"{prefix}c{i}", 0, 1) if multich else ch
+        notes.append(NoteV(c, p, st, st + du, v))
+        msgs.append(on(c, p, v, time=st))
+        msgs.append(off(c, p, time=st + du))
     return msgs, notes
 
 
-def q_bars(name, plan, n0, n1, requant, smax, dmax):
+def q_bars(name, plan, n0, n1, requant, smax, dmax, multich=False):
     def fn(ctx):
-        m0, notes0 = build_track(ctx, "a", n0, 0, plan=plan, smax=smax, dmax=dmax, allowed=requant)
+        m0, notes0 = build_track(ctx, "a", n0, 0, plan=plan, smax=smax, dmax=dmax, allowed=requant, multich=multich)
         tracks = [abs_sequence(m0)]
         all_notes = [notes0]
         if n1 is not None:
@@ -170,6 +172,7 @@ def queries(tier, seed):
         qs.append(q_bars("t2n1", plan, 1, 1, False, 100, 100))
         qs.append(q_bars("t1n1", plan, 1, None, True, 160 if tier == "quick" else 250, 0))
     qs.append(q_bars("t1n2", "34-58", 2, None, False, 100, 90))
+    qs.append(q_bars("t1n2mc", "34", 2, None, False, 80, 80, multich=True))     # one track carrying two channels
     qs.append(q_bars("t2empty", "34", 1, "empty", False, 100, 100))
     qs.append(q_bars("t2long", "68-24", 1, "long", False, 60, 60))
     qs.append(q_bars("t2n1", "44-34k", 1, 1, True, 100, 0))
